@@ -77,11 +77,11 @@ def body(ctx):
     ctx.extra['host_packets'] = sum(1 for t in traces for e in t if e['ev'] == 'tx')
     ctx.sample(dict(kind='session', spec=specs[0], events=[e for e in traces[0] if e['ev'] in ('tx', 'rd')][:12]))
     # binding self-tests: drop one host OKAY / swap the id fields of one packet -> rejected
-    t0 = next(t for t in traces if any(e['ev'] == 'tx' and e['cmd'] == 'OKAY' for e in t))
+    t0 = next(c[3] for c in corpus if all(o.kind == 'ret' for o in c[2].outcomes) and any(e['ev'] == 'tx' and e['cmd'] == 'OKAY' and e['a0'] != e['a1'] for e in c[3]))
     a = copy.deepcopy(t0)
     a.remove(next(e for e in a if e['ev'] == 'tx' and e['cmd'] == 'OKAY'))
     b = copy.deepcopy(t0)
-    e = next(e for e in b if e['ev'] == 'tx' and e['cmd'] == 'OKAY')
+    e = next(e for e in b if e['ev'] == 'tx' and e['cmd'] == 'OKAY' and e['a0'] != e['a1'])
     e['a0'], e['a1'] = e['a1'], e['a0']
     v2, _ = tlc.validate_traces('TraceEnv', [a, b])
     if v2[0][2] == 'ok' or v2[1][2] == 'ok':
